@@ -55,14 +55,21 @@ def check_schedule(spec, model=None):
         d = spec_tie(spec, tr, sched.schedule(tr), model)
         if d:
             return ("disagreement", d), {"tie"}
-    r = sched.pipe_retire(spec, True)
+    r = sched.pipe_retire(spec, True, by_steps=True)
     if r is None:
         return "single-cycle run finishes but the five-stage run faults or does not finish", set()
-    ret, cyc, _, _ = r
+    ret, cyc, _, psim = r
     W = sched.schedule(tr)
     exp = [(i["addr"], w) for i, w in zip(tr, W)]
     tot = W[-1] if W else 0
     cl = {"n=%d" % min(len(tr), 5)}
+    if spec[3] or spec[4]:
+        # with caches the schedule is in STEPS; every counted miss adds its penalty to the cycle counter
+        cl.add("caches")
+        from common import stats_of
+        ds, is_ = stats_of(psim.state.memory.get_cache_stats()), stats_of(psim.state.instruction_memory.get_cache_stats())
+        pen = (spec[3][5] * (ds[1] - ds[0]) if spec[3] and ds else 0) + (spec[4][5] * (is_[1] - is_[0]) if spec[4] and is_ else 0)
+        cyc -= pen
     if any(i["ecall"] for i in tr):
         cl.add("ecall")
     if any(i["redirect"] for i in tr):
@@ -109,6 +116,15 @@ class Schedule(Slice):
 
 class ScheduleRandom(Schedule):
     name = "schedule-random"
+
+    def gen(self, rng, index, tier):
+        prog = gen_rv.gen_program(rng, maxlen=14, allow_fault=False, aligned_only=True)
+        dc = gen_rv.gen_cache_cfg(rng) if rng.random() < 0.35 else []
+        ic = gen_rv.gen_cache_cfg(rng) if rng.random() < 0.35 else []
+        return {"spec": gen_rv.gen_state_spec(rng, prog, dc, ic), "steps": 400}
+
+    def required_classes(self, tier):
+        return ["ecall", "redirect", "delayed", "caches"]
 
     def exhaustive(self, tier):
         return None
